@@ -5,7 +5,7 @@ Import ListNotations.
 Open Scope string_scope.
 
 
-(* saml2/entity.py:Entity.pick_binding, lines 315-358 *)
+(* saml2/entity.py:Entity.pick_binding, lines 313-356 *)
 Definition src2_pick_binding (sfunc : pyval -> pyval -> pyval -> pyval) (all_locations_ : pyval -> pyval) (next_ : pyval -> pyval -> pyval) (v_self : pyval) (v_service : pyval) (v_bindings : pyval) (v_descr_type : pyval) (v_request : pyval) (v_entity_id : pyval) : pyval :=
   let v_sfunc := PErr in
   let v__url := PErr in
@@ -115,10 +115,109 @@ Definition src2_pick_binding (sfunc : pyval -> pyval -> pyval -> pyval) (all_loc
    | BErr => PErr
    end)).
 
-(* UNTRANSLATABLE Entity.response_args: call of type with 1 argument(s) *)
-Definition src2_response_args (pick_binding_ : pyval -> pyval -> pyval -> pyval -> pyval) (v_self : pyval) (v_message : pyval) (v_bindings : pyval) (v_descr_type : pyval) : pyval := PErr.
+(* saml2/entity.py:Entity.response_args, lines 370-421 *)
+Definition src2_response_args (pick_binding_ : pyval -> pyval -> pyval -> pyval -> pyval) (v_self : pyval) (v_message : pyval) (v_bindings : pyval) (v_descr_type : pyval) : pyval :=
+  let v_info := PErr in
+  let v_rsrv := PErr in
+  let v_binding := PErr in
+  let v_destination := PErr in
+  (py_bind (p2_mkdict [("in_response_to", (p2_attr v_message "id"))]) (fun v_info =>
+   (let k_27 := fun v_rsrv v_descr_type v_info =>
+    (match p2_branch (p2_eq v_bindings (p2_mklist [(PStr "urn:oasis:names:tc:SAML:2.0:bindings:SOAP")])) with
+    | BTrue => (py_bind (p2_setitem v_info (PStr "binding") (PStr "urn:oasis:names:tc:SAML:2.0:bindings:SOAP")) (fun v_info =>
+    (py_bind (p2_setitem v_info (PStr "destination") (PStr "")) (fun v_info =>
+    v_info))))
+    | BFalse => (match p2_branch v_rsrv with
+    | BTrue => (let k_12 := fun v_descr_type =>
+     (py_bind (py_bind v_rsrv (fun a_2 => (py_bind v_bindings (fun a_3 => (py_bind v_descr_type (fun a_4 => (py_bind v_message (fun a_5 => (pick_binding_ a_2 a_3 a_4 a_5))))))))) (fun a_6 =>
+     (match p2_unpack 2 a_6 with
+     | PList [v_binding; v_destination] => (py_bind v_binding (fun a_7 =>
+     (py_bind (p2_setitem v_info (PStr "binding") a_7) (fun v_info =>
+     (py_bind v_destination (fun a_8 =>
+     (py_bind (p2_setitem v_info (PStr "destination") a_8) (fun v_info =>
+     v_info))))))))
+     | PExc n_9 => (PExc n_9)
+     | _ => PErr
+     end))) in
+    (match p2_branch (p2_not v_descr_type) with
+    | BTrue => (match p2_branch (p2_eq (p2_attr v_self "entity_type") (PStr "sp")) with
+    | BTrue => (let v_descr_type := (PStr "idpsso") in
+    (k_12 v_descr_type))
+    | BFalse => (let v_descr_type := (PStr "spsso") in
+    (k_12 v_descr_type))
+    | BExc n_11 => (PExc n_11)
+    | BErr => PErr
+    end)
+    | BFalse => (k_12 v_descr_type)
+    | BExc n_12 => (PExc n_12)
+    | BErr => PErr
+    end))
+    | BFalse => v_info
+    | BExc n_13 => (PExc n_13)
+    | BErr => PErr
+    end)
+    | BExc n_15 => (PExc n_15)
+    | BErr => PErr
+    end) in
+   (match p2_branch (p2_isinstance v_message [] ["AuthnRequest"]) with
+   | BTrue => (let v_rsrv := (PStr "assertion_consumer_service") in
+   (let v_descr_type := (PStr "spsso") in
+   (py_bind (p2_attr (p2_attr v_message "issuer") "text") (fun a_17 =>
+   (py_bind (p2_setitem v_info (PStr "sp_entity_id") a_17) (fun v_info =>
+   (py_bind (p2_attr v_message "name_id_policy") (fun a_18 =>
+   (py_bind (p2_setitem v_info (PStr "name_id_policy") a_18) (fun v_info =>
+   (k_27 v_rsrv v_descr_type v_info)))))))))))
+   | BFalse => (match p2_branch (p2_isinstance v_message [] ["LogoutRequest"]) with
+   | BTrue => (let v_rsrv := (PStr "single_logout_service") in
+   (k_27 v_rsrv v_descr_type v_info))
+   | BFalse => (match p2_branch (p2_isinstance v_message [] ["AttributeQuery"]) with
+   | BTrue => (py_bind (p2_attr (p2_attr v_message "issuer") "text") (fun a_19 =>
+   (py_bind (p2_setitem v_info (PStr "sp_entity_id") a_19) (fun v_info =>
+   (let v_rsrv := (PStr "attribute_consuming_service") in
+   (let v_descr_type := (PStr "spsso") in
+   (k_27 v_rsrv v_descr_type v_info)))))))
+   | BFalse => (match p2_branch (p2_isinstance v_message [] ["ManageNameIDRequest"]) with
+   | BTrue => (let v_rsrv := (PStr "manage_name_id_service") in
+   (k_27 v_rsrv v_descr_type v_info))
+   | BFalse => (match p2_branch (p2_isinstance v_message [] ["AssertionIDRequest"]) with
+   | BTrue => (let v_rsrv := (PStr "") in
+   (k_27 v_rsrv v_descr_type v_info))
+   | BFalse => (match p2_branch (p2_isinstance v_message [] ["ArtifactResolve"]) with
+   | BTrue => (let v_rsrv := (PStr "") in
+   (k_27 v_rsrv v_descr_type v_info))
+   | BFalse => (match p2_branch (p2_isinstance v_message [] ["AssertionIDRequest"]) with
+   | BTrue => (let v_rsrv := (PStr "") in
+   (k_27 v_rsrv v_descr_type v_info))
+   | BFalse => (match p2_branch (p2_isinstance v_message [] ["NameIDMappingRequest"]) with
+   | BTrue => (let v_rsrv := (PStr "") in
+   (k_27 v_rsrv v_descr_type v_info))
+   | BFalse => (PExc "SAMLError")
+   | BExc n_20 => (PExc n_20)
+   | BErr => PErr
+   end)
+   | BExc n_21 => (PExc n_21)
+   | BErr => PErr
+   end)
+   | BExc n_22 => (PExc n_22)
+   | BErr => PErr
+   end)
+   | BExc n_23 => (PExc n_23)
+   | BErr => PErr
+   end)
+   | BExc n_24 => (PExc n_24)
+   | BErr => PErr
+   end)
+   | BExc n_25 => (PExc n_25)
+   | BErr => PErr
+   end)
+   | BExc n_26 => (PExc n_26)
+   | BErr => PErr
+   end)
+   | BExc n_27 => (PExc n_27)
+   | BErr => PErr
+   end)))).
 
-(* saml2/client_base.py:Base._sso_location, lines 209-230 *)
+(* saml2/client_base.py:Base._sso_location, lines 217-238 *)
 Definition src2_sso_location (sso_service : pyval -> pyval -> pyval) (with_descriptor_ : pyval -> pyval) (locations_ : pyval -> pyval) (next_ : pyval -> pyval -> pyval) (v_self : pyval) (v_entityid : pyval) (v_binding : pyval) : pyval :=
   let v_srvs := PErr in
   let v_eids := PErr in
